@@ -519,6 +519,10 @@ func (x *Run) exec(fr *Frame, st *State, instr ssa.Instruction, outs *[]Outcome)
 			it.Map = &mm
 			it.MapTy = mt
 			x.checkValGuard(fr, st, m, false, ins)
+			// ghost: the set of keys this range statement has visited
+			va := x.visitedArr(mt)
+			ks := x.d.sortOf(mt.Key())
+			x.setArr(st, va, store(x.arr(st, va), m.T, x.d.constArray(string(ks), SBool, "false")))
 		} else {
 			it.IsStr = true
 		}
